@@ -28,7 +28,7 @@ use std::panic::{catch_unwind, AssertUnwindSafe};
 use std::rc::Rc;
 use xml_dom as dom;
 use xml_dom::{
-    AsNode, Attr, CharacterDataMut, DocumentMut, ElementMut,
+    AsNode, CharacterDataMut, DocumentMut, ElementMut,
     NamedNodeMapMut, Node, NodeList, NodeMut, ProcessingInstructionMut, TextMut, XmlNode,
 };
 use xml_info as info;
@@ -259,8 +259,13 @@ fn dump(st: &St) -> String {
                 let (ns, at, _) = parts(n);
                 s.push_str(&format!("/a={}/n={}", hlist(st, *d, &at), hlist(st, *d, &ns)));
             }
-            XmlNode::Attribute(a) => {
-                s.push_str(&format!("/sp={}", if a.specified() { 1 } else { 0 }));
+            XmlNode::Attribute(_) => {
+                // owner element as the infoset sees it (DOM Level 1 has no ownerElement)
+                let ow = item_of(n)
+                    .and_then(|i| i.as_attribute())
+                    .and_then(|a| xml_info::Attribute::owner_element(&*a.borrow()).ok())
+                    .map(|e| XmlNode::from(Rc::new(info::XmlItem::from(e))));
+                s.push_str(&format!("/ow={}", hopt(st, *d, ow)));
             }
             _ => {}
         }
@@ -527,9 +532,20 @@ fn num(s: &str) -> usize {
     }
 }
 
-/// pre-order ranks (merged view) of the nodes of a document, keyed by (kind, id)
-fn ranks(doc: &dom::XmlDocument) -> HashMap<(String, usize), usize> {
-    fn go(n: &XmlNode, m: &mut HashMap<(String, usize), usize>) {
+fn empty_text(n: &XmlNode) -> bool {
+    match n {
+        XmlNode::ExpandedText(t) => dom::CharacterData::length(t) == 0,
+        _ => false,
+    }
+}
+
+/// pre-order ranks (merged view) of the nodes of a document, keyed by (kind, id);
+/// `skip_empty`: merged text nodes without characters get no rank (they do not survive printing)
+fn ranks(doc: &dom::XmlDocument, skip_empty: bool) -> HashMap<(String, usize), usize> {
+    fn go(n: &XmlNode, m: &mut HashMap<(String, usize), usize>, skip_empty: bool) {
+        if skip_empty && empty_text(n) {
+            return;
+        }
         let r = m.len();
         m.insert((kind(n).to_string(), n.id()), r);
         if let Some(attrs) = n.attributes() {
@@ -540,38 +556,43 @@ fn ranks(doc: &dom::XmlDocument) -> HashMap<(String, usize), usize> {
             }
         }
         for c in child_list(n) {
-            go(&c, m);
+            go(&c, m, skip_empty);
         }
     }
     let mut m = HashMap::new();
-    go(&doc.as_node(), &mut m);
+    go(&doc.as_node(), &mut m, skip_empty);
     m
 }
 
-fn query_ranks(doc: &dom::XmlDocument, expr: &str) -> String {
+/// (ranks of the selected nodes, the same ignoring empty merged text nodes)
+fn query_ranks(doc: &dom::XmlDocument, expr: &str) -> (String, String) {
     let r = catch_unwind(AssertUnwindSafe(|| {
         let mut ctx = xml_xpath::eval::model::Context::default();
         match xml_xpath::query(doc.clone(), expr, &mut ctx) {
             Ok(xml_xpath::eval::model::Value::Node(ns)) => {
-                let m = ranks(doc);
-                let l: Vec<String> = ns
-                    .iter()
-                    .map(|n| match m.get(&(kind(n).to_string(), n.id())) {
-                        Some(r) => r.to_string(),
-                        None => "?".to_string(),
-                    })
-                    .collect();
-                if l.is_empty() {
-                    "-".to_string()
-                } else {
-                    l.join(".")
-                }
+                let show = |skip: bool| {
+                    let m = ranks(doc, skip);
+                    let l: Vec<String> = ns
+                        .iter()
+                        .filter(|n| !(skip && empty_text(n)))
+                        .map(|n| match m.get(&(kind(n).to_string(), n.id())) {
+                            Some(r) => r.to_string(),
+                            None => "?".to_string(),
+                        })
+                        .collect();
+                    if l.is_empty() {
+                        "-".to_string()
+                    } else {
+                        l.join(".")
+                    }
+                };
+                (show(false), show(true))
             }
-            Ok(_) => "scalar".to_string(),
-            Err(_) => "err".to_string(),
+            Ok(_) => ("scalar".to_string(), "scalar".to_string()),
+            Err(_) => ("err".to_string(), "err".to_string()),
         }
     }));
-    r.unwrap_or_else(|_| "panic".to_string())
+    r.unwrap_or_else(|_| ("panic".to_string(), "panic".to_string()))
 }
 
 fn run_op(st: &mut St, op: &str) -> Res {
@@ -706,10 +727,17 @@ fn run_op(st: &mut St, op: &str) -> Res {
                 dom::Context::from_text_expanded(true),
             ) {
                 Ok(("", d2)) => query_ranks(&d2, &expr),
-                _ => "noparse".to_string(),
+                _ => ("noparse".to_string(), "noparse".to_string()),
             };
             let _ = rd;
-            Res::Query(format!("q:{}/{}", a, b))
+            // does the edited document hold a merged text node without characters?
+            st.set_view(true);
+            let has_empty = ranks(&d, false).len() != ranks(&d, true).len();
+            st.set_view(false);
+            Res::Query(format!(
+                "q:{}/{};{}/{};e{}",
+                a.0, b.0, a.1, b.1, has_empty as u8
+            ))
         }
         _ => Res::Na,
     }
@@ -720,7 +748,10 @@ pub fn case(line: &str) -> String {
     if w.len() < 2 {
         return "badinput".to_string();
     }
-    let merged = w[0] == "m";
+    // "r" | "m", optionally followed by "!k": records before k carry no dump ("-")
+    let mut vw = w[0].split('!');
+    let merged = vw.next() == Some("m");
+    let from: usize = vw.next().and_then(|x| x.parse().ok()).unwrap_or(0);
     let nd: usize = w[1].parse().unwrap_or(0);
     if w.len() < 2 + nd {
         return "badinput".to_string();
@@ -747,9 +778,9 @@ pub fn case(line: &str) -> String {
         "init {} {} # {}",
         describe(&st),
         op_digests(&w[2 + nd..]),
-        dump(&st)
+        if from == 0 { dump(&st) } else { "-".to_string() }
     )];
-    for op in &w[2 + nd..] {
+    for (i, op) in w[2 + nd..].iter().enumerate() {
         st.set_view(merged);
         let r = catch_unwind(AssertUnwindSafe(|| run_op(&mut st, op)));
         st.set_view(false);
@@ -773,7 +804,11 @@ pub fn case(line: &str) -> String {
             }
         };
         st.scan();
-        let d = catch_unwind(AssertUnwindSafe(|| dump(&st))).unwrap_or_else(|_| "dump-panic".to_string());
+        let d = if i + 1 < from {
+            "-".to_string()
+        } else {
+            catch_unwind(AssertUnwindSafe(|| dump(&st))).unwrap_or_else(|_| "dump-panic".to_string())
+        };
         recs.push(format!("{} # {}", res, d));
     }
     recs.join(" | ")
